@@ -675,6 +675,70 @@ pub fn c18_random(ctx: &Ctx, pool: &PhrasePool, rng: &mut Rng, seed: u64) -> His
     History { property: "C18".into(), seed, label: format!("{n} queries on one {label} database"), steps }
 }
 
+/// C18 with real caller threads on one database: who runs at every scheduling point (before each
+/// step, in the middle and at the end of every lookup) is drawn here.
+pub fn c18_threads(ctx: &Ctx, pool: &PhrasePool, rng: &mut Rng, seed: u64) -> History {
+    let t = rng.range(2, 4);
+    // a small pool, so that the threads look the same phrases up at the same time
+    let k = rng.range(2, 8);
+    let local = PhrasePool {
+        own: (0..k).map(|_| rng.pick(&pool.own).clone()).collect(),
+        ambiguous: (0..2).map(|_| if pool.ambiguous.is_empty() { rng.pick(&pool.own).clone() } else { rng.pick(&pool.ambiguous).clone() }).collect(),
+        missing: pool.missing.clone(),
+    };
+    let mut queries: Vec<QuerySpec> = Vec::new();
+    let mut threads: Vec<Vec<usize>> = vec![Vec::new(); t];
+    let per = rng.range(1, 3);
+    for ti in 0..t {
+        for _ in 0..per {
+            let text = c18_text(&local, rng);
+            let describe = rng.chance(1, 2);
+            threads[ti].push(queries.len());
+            queries.push(QuerySpec { text: text.clone(), describe });
+            // the twin with the opposite flag runs on another thread
+            let other = (ti + 1 + rng.below(t - 1)) % t;
+            threads[other].push(queries.len());
+            queries.push(QuerySpec { text, describe: !describe });
+        }
+    }
+    for th in threads.iter_mut() {
+        rng.shuffle(th);
+    }
+    // schedule: uniform, sticky (long runs of one thread with rare switches) or strictly alternating
+    let len = rng.range(40, 600);
+    let style = rng.below(4);
+    let stick = rng.range(2, 12);
+    let schedule: Vec<u8> = (0..len)
+        .map(|i| match style {
+            0 => 1 + rng.below(t) as u8,
+            1 => {
+                if rng.chance(1, stick) {
+                    1 + rng.below(t) as u8
+                } else {
+                    0
+                }
+            }
+            2 => 1 + (i % t) as u8,
+            _ => {
+                if rng.chance(1, 2) {
+                    0
+                } else {
+                    1 + rng.below(t) as u8
+                }
+            }
+        })
+        .collect();
+    let (mode, label) = if rng.chance(1, 2) { (Mode::Disk, "disk") } else { (Mode::Mem, "mem") };
+    let mut steps = Vec::new();
+    if mode == Mode::Disk {
+        steps.push(Step::Fabricate { state: state(true, MetaSpec::Current, IndexSpec::Complete) });
+    }
+    let n = queries.len();
+    let ops = vec![Op::Open { slot: 0, mode, plan: Plan::default() }, Op::Threads { slot: 0, queries, threads, schedule, iso_fresh: Some(mode) }];
+    steps.push(Step::Start { session: ctx.session(1, vec![], ops) });
+    History { property: "C18".into(), seed, label: format!("{t} caller threads, {n} queries on one {label} database"), steps }
+}
+
 // ---------------------------------------------------------------------------------------------
 // C19
 
